@@ -27,7 +27,7 @@ def _mc_law(rep, seed, n_random, K, invariants, tag):
             json.dump(cfgs, f)
         with open(cfgfile, "w") as f:
             f.write("SPECIFICATION MCSpec\nCHECK_DEADLOCK FALSE\n" + "".join(f"INVARIANT {i}\n" for i in invariants))
-        r = tlc.run_tlc("MC_RexLaw", cfg=os.path.basename(cfgfile), workers=common.NPROC, env={"MC_CFG_FILE": path}, timeout=3000, heap="12g")
+        r = tlc.run_tlc("MC_RexLaw", cfg=os.path.basename(cfgfile), workers=common.NPROC, env={"MC_CFG_FILE": path}, timeout=5400, heap="16g")
     finally:
         import shutil
 
@@ -104,8 +104,12 @@ def _hist_run(n):
 def c03(tier, seed):
     rep = common.Report("C03", tier, seed)
     quick = tier == "quick"
-    _mc_law(rep, seed, n_random=0 if quick else 12, K=3 if quick else 4,
-            invariants=["StepsGapFreeNonOverlap", "MessagesCausalFifo", "ConsumerIsFirstEligible", "WindowIsMostRecent"], tag="c03")
+    inv3 = ["StepsGapFreeNonOverlap", "MessagesCausalFifo", "ConsumerIsFirstEligible", "WindowIsMostRecent"]
+    if quick:
+        _mc_law(rep, seed, n_random=0, K=3, invariants=inv3, tag="c03")
+    else:
+        _mc_law(rep, seed, n_random=16, K=3, invariants=inv3, tag="c03")      # more topologies
+        _mc_law(rep, seed, n_random=0, K=4, invariants=inv3, tag="c03k4")    # deeper on the hand-made ones
     jobs = []
     ng = 10 if quick else 64
     for i, cfg in enumerate(_graphs(seed + 300, ng, tie_every=2, handmade=2, max_window=4)):
@@ -141,8 +145,12 @@ def c03(tier, seed):
 def c04(tier, seed):
     rep = common.Report("C04", tier, seed)
     quick = tier == "quick"
-    _mc_law(rep, seed + 1, n_random=1 if quick else 12, K=3 if quick else 4,
-            invariants=["StartLaw", "PhaseReturnsToGrid", "FrequencySpacing", "StepsGapFreeNonOverlap", "MessagesCausalFifo"], tag="c04")
+    inv4 = ["StartLaw", "PhaseReturnsToGrid", "FrequencySpacing", "StepsGapFreeNonOverlap", "MessagesCausalFifo"]
+    if quick:
+        _mc_law(rep, seed + 1, n_random=1, K=3, invariants=inv4, tag="c04")
+    else:
+        _mc_law(rep, seed + 1, n_random=16, K=3, invariants=inv4, tag="c04")
+        _mc_law(rep, seed + 1, n_random=0, K=4, invariants=inv4, tag="c04k4")
     jobs = []
     ng = 10 if quick else 64
     for i, cfg in enumerate(_graphs(seed + 400, ng, heavy=True)):
